@@ -606,13 +606,18 @@ def rule_onesite_cap_enforced(ctx):
     if not blocks:
         raise AnalysisError("onesite-cap-enforced: no branch on self.bsz in DMRG.solve")
     where = f"{f.module.relpath}:{blocks[0].lineno}"
+    # the local that holds the sweep's cap (whatever it is called): what is passed on as "max_bond" to the sweep / the expansion
+    caps = {v.id for a in ast.walk(f.node) if isinstance(a, ast.Dict) for k, v in zip(a.keys, a.values) if isinstance(k, ast.Constant) and k.value == "max_bond" and isinstance(v, ast.Name)}
+    caps |= {c.args[0].id for c in ast.walk(f.node) if isinstance(c, ast.Call) and isinstance(c.func, ast.Attribute) and c.func.attr == "expand_bond_dimension" and c.args and isinstance(c.args[0], ast.Name)}
+    if not caps:
+        raise AnalysisError("onesite-cap-enforced: the local holding the sweep's bond cap was not found in DMRG.solve")
     ok = False
     for b in blocks:
         for st in ast.walk(b):
-            if isinstance(st, ast.If) and any(isinstance(c, ast.Compare) and isinstance(c.ops[0], (ast.Gt, ast.GtE, ast.Lt, ast.LtE)) and any(isinstance(y, ast.Name) and y.id == "max_bond" for y in ast.walk(c))
+            if isinstance(st, ast.If) and any(isinstance(c, ast.Compare) and isinstance(c.ops[0], (ast.Gt, ast.GtE, ast.Lt, ast.LtE)) and any(isinstance(y, ast.Name) and y.id in caps for y in ast.walk(c))
                                               and any(isinstance(y, ast.Call) and isinstance(y.func, ast.Name) and y.func.id == "max" for y in ast.walk(c)) for c in ast.walk(st.test)):
                 for c in ast.walk(st):
-                    if isinstance(c, ast.Call) and isinstance(c.func, ast.Attribute) and "compress" in c.func.attr and any(k.arg == "max_bond" and any(isinstance(y, ast.Name) and y.id == "max_bond" for y in ast.walk(k.value)) for k in c.keywords):
+                    if isinstance(c, ast.Call) and isinstance(c.func, ast.Attribute) and "compress" in c.func.attr and any(k.arg == "max_bond" and any(isinstance(y, ast.Name) and y.id in caps for y in ast.walk(k.value)) for k in c.keywords):
                         ok = True
     if ok:
         r.ok("DMRG.solve[bsz == 1]", sample={"cap": "bonds above max_bond are truncated before the sweep"})
